@@ -106,16 +106,18 @@ def t_deep(acc):
     from gambatools.pda_algorithms import pda_accepts_word
     from gambatools.global_settings import GambaTools
     n = 1005
-    spec = ('pda', 3, 2, 1, ((0, 0, 1, 0, 0), (0, 1, 1, 1, 1), (1, 2, 0, 1, 1), (1, 2, 1, 2, 1)), 0, 4)
-    # s0 -a,e->x s0 ; s0 -b,e->e s1 ; s1 -e,x->e s1 ; s1 -e,e->e s2 ;  F = {s2}
+    # s0 -e,e->y s1 (bottom marker) ; s1 -a,e->x s1 ; s1 -b,e->e s2 ; s2 -e,x->e s2 ; s2 -e,y->e s3 ;  F = {s3}
+    # (indices: letters a=0, b=1, eps=2; stack x=0, y=1, eps=2): the word a^n b is accepted only after n epsilon pops
+    spec = ('pda', 4, 2, 2, ((0, 2, 2, 1, 1), (1, 0, 2, 1, 0), (1, 1, 2, 2, 2), (2, 2, 0, 2, 2), (2, 2, 1, 3, 2)), 0, 8)
     R = pda.ref(spec)
     P = pda.build(spec)
     rp = {'fn': 'mc.props.c09:t_deep', 'mode': 'plain', 'params': {}}
     old = GambaTools.pda_epsilon_closure_max_iterations
     try:
-        for lim, word, exp in ((2 * n + 50, 'a' * n + 'b', True), (2 * n + 50, 'a' * 3 + 'b', True), (5, 'a' * 2 + 'b', True)):
+        assert pda.accepts(R, 'aab') and not pda.accepts(R, 'aa')
+        for lim, word, exp in ((n + 50, 'a' * n + 'b', True), (n + 50, 'a' * 3 + 'b', True), (5, 'a' * 2 + 'b', True), (n + 50, 'a' * 5, False)):
             GambaTools.pda_epsilon_closure_max_iterations = lim
-            inst = {'pda': pda.show(spec), 'word': 'a^{} b'.format(len(word) - 1), 'limit': lim, 'largest_closure': 2 * (len(word) - 1) + 2}
+            inst = {'pda': pda.show(spec), 'word': 'a^{} b'.format(len(word) - 1), 'limit': lim, 'largest_closure': len(word) + 2}
             ok, got = core.lib_call(acc, 'pda_accepts_word', inst, pda_accepts_word, P, word, repro=rp)
             acc.transitions += 1
             acc.states += 1
@@ -191,4 +193,4 @@ def plan(tier, seed):
         bounds = 'PDA(2,1,1,<=3) x words <= 4; PDA(2,2,1,<=2), PDA(2,1,2,<=2) x words <= 3; strides 1/8 of PDA(2,2,1,3), PDA(2,1,1,4), 1/16 of PDA(3,1,1,3); limits 1,2,3,5,8; stride 1/16 with limits 13, 1000'
     return {'tasks': tasks, 'bounds': {'spaces': bounds}, 'exhaustive': True,
             'rule': 'every labelled PDA in the bounds x every word x every listed value of pda_epsilon_closure_max_iterations; soundness vs saturation oracle for every limit; completeness demanded iff explicit configuration search shows every closure on the way has at most `limit` configurations; non-trivial = PDA with a word of the language inside the premise',
-            'assumptions': ['closure premise evaluated on the exact configuration sets (oracle), capped at max(limit)+1', 'small spaces are presented a second time through one live PDA object rewritten in place (detects per-object caches)', 'epsilon-chain family with self-loops (n = 2..5) at limits n-1..n+2: closures with few configurations but many applicable epsilon steps', 'one deep instance a^1005 b with limit 2060 (closure of 2012 configurations, above the default limit)', 'a family with the stack symbols A, B, AB (constructor-built PDAs; the text format only has one-character symbols)']}
+            'assumptions': ['closure premise evaluated on the exact configuration sets (oracle), capped at max(limit)+1', 'small spaces are presented a second time through one live PDA object rewritten in place (detects per-object caches)', 'epsilon-chain family with self-loops (n = 2..5) at limits n-1..n+2: closures with few configurations but many applicable epsilon steps', 'one deep instance a^1005 b with limit 1055 (closure of 1007 configurations: above the default limit of 1000, below the configured one)', 'a family with the stack symbols A, B, AB (constructor-built PDAs; the text format only has one-character symbols)']}
